@@ -24,6 +24,8 @@ namespace QipVerif.Route
 object is `meas k` (`k` opaque). -/
 inductive GName
   | CNOT | CSIGN | SWAP | ISWAP | SQRTISWAP | SQRTSWAP | BERKELEY | SWAPalpha
+  /-- routed since `fixes/C13-3.patch` (`ordered_gates`); any other gate before -/
+  | RZX
   | other (k : Nat)
   | meas (k : Nat)
 deriving DecidableEq, Repr
@@ -36,6 +38,11 @@ def GName.isCtl : GName → Bool
 /-- `gate.name in swap_gates` -/
 def GName.isSwp : GName → Bool
   | .SWAP | .ISWAP | .SQRTISWAP | .SQRTSWAP | .BERKELEY | .SWAPalpha => true
+  | _ => false
+
+/-- `gate.name in ordered_gates`: two-target gates that distinguish their targets -/
+def GName.isOrd : GName → Bool
+  | .RZX => true
   | _ => false
 
 structure Gate where
@@ -73,12 +80,16 @@ structure Variant where
   /-- C07-5: the re-emitted gate keeps the classical condition of the routed gate
   (`**_condition(gate)`); before, every routed gate came out unconditional -/
   ccFix : Bool
+  /-- C13-3: RZX is routed (like an exchange-type gate, its two targets keeping their order);
+  before, the router passed it through like any gate it does not know -/
+  rzFix : Bool
 deriving DecidableEq, Repr
 
-def Variant.old : Variant := ⟨false, false, false, false, false⟩
-/-- the code with `fixes/C07-{1,2,3,4}.patch`; `cc` = whether `fixes/C07-5.patch` is in place too -/
-def Variant.rep (cc : Bool) : Variant := ⟨true, true, true, true, cc⟩
-def Variant.fixed : Variant := Variant.rep false
+def Variant.old : Variant := ⟨false, false, false, false, false, false⟩
+/-- the code with `fixes/C07-{1,2,3,4}.patch`; `cc` / `rz` = whether `fixes/C07-5.patch` /
+`fixes/C13-3.patch` are in place too -/
+def Variant.rep (cc rz : Bool) : Variant := ⟨true, true, true, true, cc, rz⟩
+def Variant.fixed : Variant := Variant.rep false false
 
 /-- the label of the classical condition handed to the re-emitted gate (`0` = none) -/
 def Variant.cond (v : Variant) (g : Gate) : Nat := if v.ccFix then g.extra else 0
@@ -93,6 +104,10 @@ def mkCtl (nm : GName) (x : Nat) (ctlHi : Bool) (lo hi : Nat) : Gate :=
 
 /-- `add_gate(name, [lo, hi], arg_value=.., <condition x>)` -/
 def mkSwp (nm : GName) (arg x : Nat) (lo hi : Nat) : Gate := ⟨nm, [], [lo, hi], arg, x⟩
+
+/-- `add_gate(name, [hi, lo] if flip else [lo, hi], arg_value=.., <condition x>)` (C13-3) -/
+def mkOrd (nm : GName) (arg x : Nat) (flip : Bool) (lo hi : Nat) : Gate :=
+  if flip then ⟨nm, [], [hi, lo], arg, x⟩ else ⟨nm, [], [lo, hi], arg, x⟩
 
 /-- The `while i < end` loop shared by all paths.  `mkA` builds the routed gate in the
 "distance odd" case, `mkB` in the "distance even" case (arguments: lower, upper qubit).
@@ -177,10 +192,14 @@ def routeSwp (v : Variant) (N : Nat) (setup : Setup) (g : Gate) (t0 t1 : Nat) : 
   let e := max t0 t1
   let a := if v.argFix then g.arg else 0
   let x := v.cond g
+  -- `ordered`, `flip_fwd`, `flip_bwd` of C13-3 (all `false` for the exchange-type gates)
+  let ord := v.rzFix && g.name.isOrd
+  let ff := ord && (t0 == e)
+  let fb := ord && (t0 == s)
   if setup = .linear ∨ (setup = .circular ∧ e - s ≤ N / 2) then
-    fwd (mkSwp g.name a x) (mkSwp g.name a x) s e
+    fwd (mkOrd g.name a x ff) (mkOrd g.name a x ff) s e
   else
-    reidxFrom (reidxSwp1 v N e) 0 (tempCirc (mkSwp g.name a x) (mkSwp g.name a x) (N + s - e))
+    reidxFrom (reidxSwp1 v N e) 0 (tempCirc (mkOrd g.name a x fb) (mkOrd g.name a x fb) (N + s - e))
 
 def isMeas (g : Gate) : Bool := match g.name with | .meas _ => true | _ => false
 
@@ -190,7 +209,7 @@ def routeGateV (v : Variant) (N : Nat) (setup : Setup) (g : Gate) : Except Err (
     match g.targets, g.controls with
     | t :: _, c :: _ => routeCtl v N setup g c t
     | _, _ => .error .shape
-  else if g.name.isSwp then
+  else if g.name.isSwp || (v.rzFix && g.name.isOrd) then
     match g.targets with
     | t0 :: t1 :: _ => .ok (routeSwp v N setup g t0 t1)
     | _ => .error .shape
